@@ -93,6 +93,18 @@ def parse_totals(text):
     return res, mism, flags
 
 
+
+def lean_checked(ck, mods, props):
+    """ck.lean, re-run once when a props module could not be audited although lake succeeded (its .olean was
+    momentarily missing: the lake build directory is shared); still unaudited afterwards = broken obligation"""
+    res = ck.lean(mods, props)
+    if res.ok and res.failed:
+        ck.lean_results.pop()
+        res = ck.lean(mods, props)
+        if res.ok and res.failed:
+            res.ok = False
+    return res
+
 def run(ck):
     rng = random.Random(ck.seed)
     # ------------------------------------------------------------------ 1. translate (T3)
@@ -121,7 +133,7 @@ def run(ck):
         bins = {name: f.result() for name, f in futs.items()}
 
     # ------------------------------------------------------------------ 2. theorems
-    res = ck.lean(PROPS, PROPS)
+    res = lean_checked(ck, PROPS, PROPS)
 
     pats = patterns(rng, ck.quick)
     text = "".join("%s %s\n" % p for p in pats)
